@@ -8,6 +8,7 @@ import DC.Model.ExplainSelect
 import DC.Model.Lexer
 import DC.Model.LitDriver
 import DC.Model.Types
+import DC.Model.ExplainExpr
 
 /-! Dispatch table of the line-protocol driver. A handler gets the op and its arguments and
 answers `none` if the op is not its own. Unknown ops answer `bad-op` (never a default value). -/
@@ -23,7 +24,8 @@ def handlers : List (String → List String → Option String) := [
   DC.Model.ExplainSelect.handle, -- c04 (ops `selshape`, `selshapeinh`, `unionshape`)
   DC.Lexer.handle,           -- c12/c13 (ops `lex`, `uni`)
   DC.Model.LitDriver.handle, -- c09 (ops `c09num`, `c09str`, `c09float`, `c09nest`, `c09dec`)
-  DC.Types.handle            -- c18 (ops `c18`, `c18ty`)
+  DC.Types.handle,           -- c18 (ops `c18`, `c18ty`)
+  DC.Model.ExplainExpr.handle -- c04/c07 expression core (op `xexpr`)
 ]
 
 def dispatch (line : String) : String :=
